@@ -46,7 +46,7 @@ def gen_sequence(rng, fam, res, thorough):
     """Returns (raw16 list, info) where info describes how it was built."""
     maxl = 15000 if res == "gac" else 65535
     kind = rng.choice(["clean", "gaps", "corrupt", "corrupt", "corrupt", "corrupt-many", "garbage", "wrap", "late-start",
-                       "zeros", "first-corrupt"])
+                       "zeros", "first-corrupt", "top-of-range", "top-of-range"])
     n = rng.choice([1, 2, 3, 7, 60, 120, 400, 1500] + ([3000, 9000, 14000] if thorough else []))
     hi = min(maxl - 1, 32767 if fam == "pod" else 65535)
     n = min(n, hi - 2)
@@ -54,8 +54,13 @@ def gen_sequence(rng, fam, res, thorough):
     if fam == "klm" and rng.random() < 0.2:
         n0 = 0
     n0 = min(n0, hi - n)
+    top = kind == "top-of-range"
+    if top:
+        # the pass ends exactly at the largest number the format admits (maxl-1, or the field's maximum)
+        n0 = hi - n + 1 - rng.choice([0, 0, 1])
+        kind = rng.choice(["clean", "corrupt"])
     nums = [n0 + i for i in range(n)]
-    info = {"kind": kind, "n": n, "n0": n0, "corrupted": [], "exact_clause": False}
+    info = {"kind": kind, "top": top, "n": n, "n0": n0, "corrupted": [], "exact_clause": False}
     if kind == "gaps":
         out, cur = [], n0
         for i in range(n):
@@ -155,7 +160,7 @@ def run_seq(ctx, fmt, raw, info, drv):
     drv.append(("c11 %s %d %s" % (fam, filegen.FMT[fmt]["maxlines"], ",".join(map(str, nums)) if nums else "_"),
                 (fmt, info, None if surv is None else [t for _, t in surv])))
     removed = (len(raw) - len(surv)) if surv is not None else -1
-    ctx.case((fmt, hash(tuple(raw))), nontrivial=bool(removed or info.get("corrupted")), branch=info["kind"])
+    ctx.case((fmt, hash(tuple(raw))), nontrivial=bool(removed or info.get("corrupted")), branch=info["kind"] + ("@top-of-range" if info.get("top") else ""))
 
 
 def named_cases():
